@@ -170,7 +170,8 @@ func isNaNBits(obs string) bool {
 // family apply
 
 // matcherModelled: false while coq/Model/Apply.v instantiates the matcher with
-// a stub (matcher_stubbed = true).  Updates that can reach mongokit.Match
+// a stub (the_matcher := stub_match, matcher_stubbed = true).  Set it to true
+// together with those two definitions when Model/Match.v is plugged in.  Updates that can reach mongokit.Match
 // ($pull with a document argument, non-empty arrayFilters) are then printed
 // as UNMODELLED on both sides.
 const matcherModelled = false
